@@ -5,15 +5,14 @@ namespace IwModel.FsmScan
 
 abbrev Word := BitVec 64
 
+/-- one halving step of `iwbits_find_first_sbit64`: when the low `k` bits (`mask`) are clear, count them and shift -/
+def ffsStep (k : Nat) (mask : Word) (st : Nat × Word) : Nat × Word :=
+  if st.2 &&& mask = 0 then (st.1 + k, st.2 >>> k) else st
+
 /-- `iwbits_find_first_sbit64` (binary search for the lowest set bit; 63 for 0) -/
 def ffs (x : Word) : Nat :=
-  let r := 0
-  let (r, x) := if x &&& 0xffffffff#64 = 0 then (r + 32, x >>> 32) else (r, x)
-  let (r, x) := if x &&& 0xffff#64 = 0 then (r + 16, x >>> 16) else (r, x)
-  let (r, x) := if x &&& 0xff#64 = 0 then (r + 8, x >>> 8) else (r, x)
-  let (r, x) := if x &&& 0xf#64 = 0 then (r + 4, x >>> 4) else (r, x)
-  let (r, x) := if x &&& 0x3#64 = 0 then (r + 2, x >>> 2) else (r, x)
-  if x &&& 0x1#64 = 0 then r + 1 else r
+  let st := ffsStep 2 0x3#64 (ffsStep 4 0xf#64 (ffsStep 8 0xff#64 (ffsStep 16 0xffff#64 (ffsStep 32 0xffffffff#64 (0, x)))))
+  if st.2 &&& 0x1#64 = 0 then st.1 + 1 else st.1
 
 /-- `iwbits_reverse_64` -/
 def rev64 (x : Word) : Word :=
